@@ -305,6 +305,11 @@ def report_problem(run: Run, mode, name, files, flags, problem, confirm=True):
             if run.match_known(sig) is None:
                 files = minimise(files, flags, sig)
                 case["files"] = files
+        if run.match_known(sig) is None:
+            # the same exception in the same two frames is the same defect whichever driver reached it
+            other = ("batch|" if mode == "daemon" else "daemon|") + sig.split("|", 1)[1]
+            if run.match_known(other) is not None:
+                sig = other
         run.report(sig, case, "mypy %s mode failed internally on %s:\n%s" % (mode, name, detail[-1800:]))
     elif kind == "hang":
         if mode == "batch":
